@@ -348,6 +348,13 @@ def RTy.core : RTy → RTy
   | .mu t => t.core
   | t => t
 
+/-- neither `null` nor `undef`; a structural test, because the derived `BEq` of the nested
+    inductive `RV` is opaque to the kernel (`v.solid = !(v == .null) && !(v == .undef)`) -/
+def RV.solid : RV → Bool
+  | .null => false
+  | .undef => false
+  | _ => true
+
 mutual
 /-- `rv` is a value of the Rust type `rty` -/
 def typed (T : Table) : RTy → RV → Bool
@@ -364,7 +371,7 @@ def typed (T : Table) : RTy → RV → Bool
       | some (.input true fields) =>
         (match fs with
          | [(k, v)] => (match fields.find? (·.name = k) with
-            | some _ => !(v == RV.null) && !(v == RV.undef)
+            | some _ => v.solid
             | none => false)
          | _ => false) && typedEntries T fields fs
       | some (.input false fields) => fs.map (·.1) == fields.map (·.name) && typedEntries T fields fs
